@@ -30,9 +30,8 @@ bool structural(const Paths64& sol, const Paths64& allInputs, std::string& why) 
   return true;
 }
 
-// doubled coordinates (exact midpoints)
-inline Point64 dbl(const Point64& p) { return Point64(p.x * 2, p.y * 2); }
-Path64 dblPath(const Path64& p) { Path64 r; for (auto& q : p) r.push_back(dbl(q)); return r; }
+using O::dbl;
+using O::dblPath;
 
 // split every path at vertices it visits twice (KF-C03-a normalisation)
 Paths64 splitAtRepeats(const Paths64& pp, bool* didSplit = nullptr) {
@@ -54,12 +53,29 @@ Paths64 splitAtRepeats(const Paths64& pp, bool* didSplit = nullptr) {
 
 // doubled coordinates (exact midpoints)
 
+// does some solution vertex lie on a solution edge it is not an end of (paths touch each other or themselves)?
+bool touching(const Paths64& sol) {
+  std::vector<O::Seg> ss = O::segsOf(sol);
+  for (size_t pi = 0; pi < sol.size(); ++pi) {
+    size_t n = sol[pi].size();
+    for (size_t k = 0; k < n; ++k)
+      for (auto& e : ss) {
+        if (e.path == (int)pi && (e.idx == (int)k || (e.idx + 1) % (int)n == (int)k)) continue;
+        if (O::onSegment(sol[pi][k], e.a, e.b)) return true;
+      }
+  }
+  return false;
+}
 // --- geometric predicate: general position or rectilinear inputs -------------
 bool geometric(const Paths64& sol, const std::vector<O::Seg>& inSegs, ld tau, bool pc, bool rev, bool rectMode,
                std::string& why, Verdict& v) {
   // (a) area, spikes; (d) collinear
   for (auto& p : sol) {
-    if (O::area2(p) == 0) { why = "zero-area solution path"; return false; }
+    if (O::area2(p) == 0) {
+      if (rectMode && O::compositePath(p)) { v.known = "KF-C03-c"; ST.count("selftouching_zero_area_path"); continue; }
+      why = "zero-area solution path";
+      return false;
+    }
     size_t n = p.size();
     for (size_t k = 0; k < n; ++k) {
       const Point64 &a = p[(k + n - 1) % n], &b = p[k], &c = p[(k + 1) % n];
@@ -141,19 +157,6 @@ bool geometric(const Paths64& sol, const std::vector<O::Seg>& inSegs, ld tau, bo
   return true;
 }
 
-// does some solution vertex lie on a solution edge it is not an end of (paths touch each other or themselves)?
-bool touching(const Paths64& sol) {
-  std::vector<O::Seg> ss = O::segsOf(sol);
-  for (size_t pi = 0; pi < sol.size(); ++pi) {
-    size_t n = sol[pi].size();
-    for (size_t k = 0; k < n; ++k)
-      for (auto& e : ss) {
-        if (e.path == (int)pi && (e.idx == (int)k || (e.idx + 1) % (int)n == (int)k)) continue;
-        if (O::onSegment(sol[pi][k], e.a, e.b)) return true;
-      }
-  }
-  return false;
-}
 // equal regions (net winding) of two path sets; exact per cell for rectilinear sets, sampled per face otherwise
 bool sameRegion(const Paths64& a, const Paths64& b, bool rect) {
   Paths64 all = a;
